@@ -419,6 +419,11 @@ Inst(kd, ev) ==
                              sp \in {q \in AlLoc(ev, c, 2) \X AlLoc(ev, c, 3) \X AlLoc(ev, c, 1) :
                                        q[1] # El(c, 2) \/ q[2] # El(c, 3) \/ q[3] # El(c, 1)}} :
                           c \in Pick({q \in Pl("L") : ev[q].ok /\ ev[q].val.len >= 3})}
+    [] kd = "SetLitSelf" ->
+        \* D = [2]int{D[1], D[0]}  (i = 0)  |  D = [2]int{1: D[0]}  (i = 1)  |  D = S{N: D.A[0], A: [2]int{D.A[1], D.N}}  (x = "S"):
+        \* the elements of the literal are read from D before D is assigned
+        UNION {{[Op(kd) EXCEPT !.d = pr[1], !.x = T, !.i = pr[2]] :
+                  pr \in {q \in Pl(T) \X (0..1) : AddrE(ev, q[1]) /\ (T = "S" => q[2] = 0)}} : T \in {"A", "S"}}
     [] kd = "RecvAssign" ->
         \* ch := make(chan T, 1); ch <- S; D = <-ch  (x: also "D, ok = <-ch"): a received value is STORED INTO the
         \* variable D like any other assigned value (pointers to D and closures over D keep referring to it)
@@ -493,6 +498,10 @@ Eff(op, ev) ==
         ELSE Res(Put(M, D, S.val), mty, <<>>, ChkMove("S", op.d, op.s, S.val), op)
     [] kd \in {"SetField", "SetElem"} -> Res(Put(M, D, v), mty, <<>>, NoChk, op)
     [] kd = "SetLit" -> Res(Put(M, D, (IF op.x = "A" THEN <<v, v + 1>> ELSE [ZeroS EXCEPT ![1] = v, ![2] = <<v, 0>>])), mty, <<>>, NoChk, op)
+    [] kd = "SetLitSelf" ->
+        LET x == D.val IN
+        Res(Put(M, D, (IF op.x = "A" THEN (IF op.i = 0 THEN <<x[2], x[1]>> ELSE <<0, x[1]>>)
+                       ELSE [ZeroS EXCEPT ![1] = x[2][1], ![2] = <<x[2][2], x[1]>>])), mty, <<>>, NoChk, op)
     [] kd = "AppendN" ->
         IF op.x = "L" THEN AppendTo(M, mty, D, S, [x \in 1..op.n |-> v + x - 1], "L", op)
         ELSE AppendTo(M, mty, D, S, [x \in 1..op.n |-> Rd(M, op.ss[1]).val], "LL", op)
@@ -645,11 +654,12 @@ BindMV(ev) == Act("BindMV", ev)
 AppendN(ev) == Act("AppendN", ev)         Tuple(ev) == Act("Tuple", ev)
 MapTuple(ev) == Act("MapTuple", ev)        LoopDefine(ev) == Act("LoopDefine", ev)
 RecvAssign(ev) == Act("RecvAssign", ev)    AppendAl(ev) == Act("AppendAl", ev)
+SetLitSelf(ev) == Act("SetLitSelf", ev)
 
 AllKinds == {"AssignVar", "Deref", "SetLit", "SetField", "SetElem", "SetThroughPtr", "SetMapEntry", "MapDelete", "MapLookup",
              "Append", "AppendLL", "AppendSlice", "DeleteIdx", "Copy", "Slice2", "Slice3", "Make", "AddrOf", "Swap",
              "IdxAssign", "RebindAssign", "PassByValue", "ReturnComposite", "RangeArray", "RangeSlice", "Capture",
-             "CallFunc", "Box", "Unbox", "BindMV", "AppendN", "Tuple", "MapTuple", "LoopDefine", "RecvAssign", "AppendAl"}
+             "CallFunc", "Box", "Unbox", "BindMV", "AppendN", "Tuple", "MapTuple", "LoopDefine", "RecvAssign", "AppendAl", "SetLitSelf"}
 
 Next ==
     /\ Len(hist) < MaxSteps
@@ -659,7 +669,7 @@ Next ==
         \/ CopyOp(ev) \/ Slice2(ev) \/ Slice3(ev) \/ Make(ev) \/ AddrOf(ev) \/ Swap(ev) \/ IdxAssign(ev)
         \/ RebindAssign(ev) \/ PassByValue(ev) \/ ReturnComposite(ev) \/ RangeArray(ev) \/ RangeSlice(ev)
         \/ Capture(ev) \/ CallFunc(ev) \/ Box(ev) \/ Unbox(ev) \/ BindMV(ev) \/ SetLit(ev)
-        \/ AppendN(ev) \/ Tuple(ev) \/ MapTuple(ev) \/ LoopDefine(ev) \/ RecvAssign(ev) \/ AppendAl(ev)
+        \/ AppendN(ev) \/ Tuple(ev) \/ MapTuple(ev) \/ LoopDefine(ev) \/ RecvAssign(ev) \/ AppendAl(ev) \/ SetLitSelf(ev)
 
 \* simulation: the kind is drawn first, then the instance (TLC's uniform choice among
 \* successor STATES would be dominated by the kinds with many instances)
